@@ -457,10 +457,21 @@ namespace nmtools::view
     constexpr auto matmul(const lhs_t& lhs, const rhs_t& rhs)
     {
         if constexpr (meta::is_maybe_v<lhs_t> || meta::is_maybe_v<rhs_t>) {
-            using result_t = decltype(matmul(unwrap(lhs),unwrap(rhs)));
+            // NOTE: unwrap returns by value, an operand that is not optional must be passed on as it is:
+            // the view keeps a pointer to it, a pointer to the unwrapped copy would dangle
+            auto lifted = [&](){
+                if constexpr (meta::is_maybe_v<lhs_t> && meta::is_maybe_v<rhs_t>) {
+                    return matmul(*lhs,*rhs);
+                } else if constexpr (meta::is_maybe_v<lhs_t>) {
+                    return matmul(*lhs,rhs);
+                } else {
+                    return matmul(lhs,*rhs);
+                }
+            };
+            using result_t = decltype(lifted());
             using return_t = meta::conditional_t<meta::is_maybe_v<result_t>,result_t,nmtools_maybe<result_t>>;
             return (has_value(lhs) && has_value(rhs)
-                ? return_t{matmul(unwrap(lhs),unwrap(rhs))}
+                ? return_t{lifted()}
                 : return_t{meta::Nothing}
             );
         } else {
@@ -947,10 +958,21 @@ namespace nmtools::view
     {
         // check for maybe here to avoid maybe<tuple<>> from aliasing
         if constexpr (meta::is_maybe_v<lhs_t> || meta::is_maybe_v<rhs_t>) {
-            using result_t = decltype(matmulv2(unwrap(lhs),unwrap(rhs)));
+            // NOTE: unwrap returns by value, an operand that is not optional must be passed on as it is:
+            // the view keeps a pointer to it, a pointer to the unwrapped copy would dangle
+            auto lifted = [&](){
+                if constexpr (meta::is_maybe_v<lhs_t> && meta::is_maybe_v<rhs_t>) {
+                    return matmulv2(*lhs,*rhs);
+                } else if constexpr (meta::is_maybe_v<lhs_t>) {
+                    return matmulv2(*lhs,rhs);
+                } else {
+                    return matmulv2(lhs,*rhs);
+                }
+            };
+            using result_t = decltype(lifted());
             using return_t = meta::conditional_t<meta::is_maybe_v<result_t>,result_t,nmtools_maybe<result_t>>;
             return (has_value(lhs) && has_value(rhs)
-                ? return_t{matmulv2(unwrap(lhs),unwrap(rhs))}
+                ? return_t{lifted()}
                 : return_t{meta::Nothing}
             );
         } else {
